@@ -780,6 +780,9 @@ class NpyArray:
         # Reset length
         self.shape = (length, ) + self.shape[1:]
         self._prepare_header_data()
+        # Write the header before shrinking the file so that the file stays loadable if the
+        # process dies in between (seek flushes the buffered header bytes to the file)
+        self._write_header_data()
 
         self.fs.seek(self.header_length + self.size * self.itemsize)
         self.fs.truncate()
